@@ -1,1 +1,4 @@
 . scripts/sched-variant.sh
+# a consumer that links only the package under test and the standard library (see harness/checks/standalone.go)
+rm -f build/standalone-powv2
+(cd harness && go build -o ../build/standalone-powv2 ./cmd/standalone-powv2) || echo "standalone consumer does not build"
